@@ -1,7 +1,417 @@
 /-
-Helper lemmas (agent model) — see the Props file that imports this module.
+Helper lemmas (agent model) for C15 (validated peers), shared with `AgentTx` (C18) and `AgentPure`
+(C20): what `reqPoll` may change, the shape of `step` on a request `send`, a characterisation of
+`agentPoll`, and how one `step` changes one outstanding request.
 -/
 import StunVerif.Lemmas.AgentMap
 namespace StunVerif.Agent
+
+/-! ### `reqPoll` -/
+
+/-- `reqPoll` without its local definitions -/
+theorem reqPoll_def (r : Req) (now : Time) :
+    reqPoll r now =
+      if r.recvCancelled then (r, .cancelled) else
+      match r.lastSend with
+      | some h =>
+        if r.timeoutI ≥ r.timeouts.length then
+          if h + msNs r.lastRto > now then (r, .waitUntil (h + msNs r.lastRto)) else (r, .timedOut)
+        else
+          if h + msNs (r.timeouts.getD r.timeoutI 0) > now then
+            (r, .waitUntil (h + msNs (r.timeouts.getD r.timeoutI 0)))
+          else if r.sendCancelled then ({ r with timeoutI := r.timeoutI + 1 }, .cancelled)
+          else ({ r with timeoutI := r.timeoutI + 1, lastSend := some now }, .sendData)
+      | none => if r.sendCancelled then (r, .cancelled) else ({ r with lastSend := some now }, .sendData) := by
+  rfl
+
+/-- `reqPoll` changes at most the retransmission counter and the last-send instant -/
+theorem reqPoll_fields (r : Req) (now : Time) :
+    ∃ i ls, (reqPoll r now).1 = { r with timeoutI := i, lastSend := ls } ∧
+      (ls = r.lastSend ∨ ls = some now) := by
+  rw [reqPoll_def]
+  split
+  · exact ⟨r.timeoutI, r.lastSend, rfl, Or.inl rfl⟩
+  · split
+    · split
+      · split
+        · exact ⟨r.timeoutI, r.lastSend, rfl, Or.inl rfl⟩
+        · exact ⟨r.timeoutI, r.lastSend, rfl, Or.inl rfl⟩
+      · split
+        · exact ⟨r.timeoutI, r.lastSend, rfl, Or.inl rfl⟩
+        · split
+          · exact ⟨r.timeoutI + 1, r.lastSend, rfl, Or.inl rfl⟩
+          · exact ⟨r.timeoutI + 1, some now, rfl, Or.inr rfl⟩
+    · split
+      · exact ⟨r.timeoutI, r.lastSend, rfl, Or.inl rfl⟩
+      · exact ⟨r.timeoutI, some now, rfl, Or.inr rfl⟩
+
+theorem reqPoll_bytes (r : Req) (now : Time) : (reqPoll r now).1.bytes = r.bytes := by
+  obtain ⟨i, ls, h, _⟩ := reqPoll_fields r now; rw [h]
+
+theorem reqPoll_to (r : Req) (now : Time) : (reqPoll r now).1.to = r.to := by
+  obtain ⟨i, ls, h, _⟩ := reqPoll_fields r now; rw [h]
+
+theorem reqPoll_hadCreds_peers (r : Req) (now : Time) : (reqPoll r now).1.hadCreds = r.hadCreds := by
+  obtain ⟨i, ls, h, _⟩ := reqPoll_fields r now; rw [h]
+
+theorem reqPoll_lastSend (r : Req) (now : Time) :
+    (reqPoll r now).1.lastSend = r.lastSend ∨ (reqPoll r now).1.lastSend = some now := by
+  obtain ⟨i, ls, h, h'⟩ := reqPoll_fields r now; rw [h]; exact h'
+
+/-- the first poll of a fresh request sends it -/
+theorem reqPoll_new_peers (tr : Transport) (b : Bytes) (hc : Bool) (to : SockAddr) (now : Time) :
+    reqPoll (Req.new tr b hc to) now = ({ Req.new tr b hc to with lastSend := some now }, .sendData) := by
+  cases tr <;> rfl
+
+/-! ### `step` on a request `send` -/
+
+theorem step_sendReq (s : State) (tid : Nat) (b : Bytes) (hc : Bool) (to : SockAddr) (now : Time) :
+    step s (.sendReq tid b hc to now) =
+      if (lookup s.out tid).isSome then (s, .inProgress) else
+        ({ s with out := insert s.out tid { Req.new s.transport b hc to with lastSend := some now } },
+         .transmit (some tid) ⟨b, s.transport, s.localAddr, to⟩) := by
+  simp only [step, reqPoll_new_peers]
+  split
+  · rfl
+  · simp only [mkTransmit]
+    cases s.transport <;> rfl
+
+/-! ### `validatedPeer` -/
+
+@[simp] theorem validatedPeer_out_peers (s : State) (a : SockAddr) : (validatedPeer s a).out = s.out := by
+  unfold validatedPeer; split <;> rfl
+
+@[simp] theorem validatedPeer_transport_peers (s : State) (a : SockAddr) :
+    (validatedPeer s a).transport = s.transport := by
+  unfold validatedPeer; split <;> rfl
+
+@[simp] theorem validatedPeer_localAddr_peers (s : State) (a : SockAddr) :
+    (validatedPeer s a).localAddr = s.localAddr := by
+  unfold validatedPeer; split <;> rfl
+
+theorem validatedPeer_contains_peers (s : State) (a b : SockAddr) :
+    (validatedPeer s a).validated.contains b = (s.validated.contains b || decide (a = b)) := by
+  unfold validatedPeer
+  by_cases hb : a = b
+  · subst hb
+    split
+    · next h => simpa using h
+    · simp
+  · have hb' : ¬ b = a := fun e => hb e.symm
+    split
+    · simp [hb]
+    · simp [hb, hb']
+
+theorem validatedPeer_mem (s : State) (a b : SockAddr) :
+    b ∈ (validatedPeer s a).validated ↔ (b ∈ s.validated ∨ a = b) := by
+  have h := validatedPeer_contains_peers s a b
+  simp only [List.contains_eq_mem] at h
+  have h' := congrArg (· = true) h
+  simpa using h'
+
+/-! ### `agentPoll` -/
+
+/-- the transaction `agentPoll` serves -/
+def chosen_peers (s : State) (now : Time) (pick : Option Nat) : Option Nat :=
+  match pick with
+  | some t => if (ready s now).contains t then some t else (ready s now).head?
+  | none => (ready s now).head?
+
+/-- serving one request whose poll answered `(r', ret)` -/
+def serve_peers (s : State) (tid : Nat) : Req × ReqRet → State × Out
+  | (r', .sendData) => ({ s with out := update s.out tid fun _ => r' }, .transmit (some tid) (mkTransmit s r'))
+  | (_, .timedOut) => ({ s with out := remove s.out tid }, .timedOut tid)
+  | (_, .cancelled) => ({ s with out := remove s.out tid }, .cancelled tid)
+  | (_, .waitUntil t) => (s, .waitUntil t)
+
+theorem agentPoll_eq_peers (s : State) (now : Time) (pick : Option Nat) :
+    agentPoll s now pick =
+      match chosen_peers s now pick with
+      | none => (s, .waitUntil ((minWait s now).getD (now + msNs 3600000)))
+      | some tid =>
+        match lookup s.out tid with
+        | none => (s, .waitUntil (now + msNs 3600000))
+        | some r => serve_peers s tid (reqPoll r now) := by
+  unfold agentPoll
+  dsimp only
+  change (match chosen_peers s now pick with
+    | none => _
+    | some tid => _) = _
+  cases chosen_peers s now pick with
+  | none => rfl
+  | some tid =>
+    dsimp only
+    cases lookup s.out tid with
+    | none => rfl
+    | some r =>
+      dsimp only
+      unfold serve_peers
+      rcases reqPoll r now with ⟨r', ret⟩
+      cases ret <;> rfl
+
+/-- what a `poll` of the agent can do: nothing but report an instant, retransmit one outstanding
+    request (updating only that request), or end one outstanding request -/
+theorem agentPoll_cases_peers (s : State) (now : Time) (pick : Option Nat) :
+    (∃ t, agentPoll s now pick = (s, .waitUntil t)) ∨
+    (∃ tid r, lookup s.out tid = some r ∧ (reqPoll r now).2 = .sendData ∧
+      agentPoll s now pick = ({ s with out := update s.out tid fun _ => (reqPoll r now).1 },
+        .transmit (some tid) (mkTransmit s (reqPoll r now).1))) ∨
+    (∃ tid r, lookup s.out tid = some r ∧ (reqPoll r now).2 = .timedOut ∧
+      agentPoll s now pick = ({ s with out := remove s.out tid }, .timedOut tid)) ∨
+    (∃ tid r, lookup s.out tid = some r ∧ (reqPoll r now).2 = .cancelled ∧
+      agentPoll s now pick = ({ s with out := remove s.out tid }, .cancelled tid)) := by
+  rw [agentPoll_eq_peers]
+  cases chosen_peers s now pick with
+  | none => exact Or.inl ⟨_, rfl⟩
+  | some tid =>
+    dsimp only
+    cases hl : lookup s.out tid with
+    | none => exact Or.inl ⟨_, rfl⟩
+    | some r =>
+      dsimp only
+      rcases hp : reqPoll r now with ⟨r', ret⟩
+      cases ret with
+      | waitUntil t => exact Or.inl ⟨t, rfl⟩
+      | sendData => exact Or.inr (Or.inl ⟨tid, r, hl, by rw [hp], by rw [hp]; rfl⟩)
+      | timedOut => exact Or.inr (Or.inr (Or.inl ⟨tid, r, hl, by rw [hp], rfl⟩))
+      | cancelled => exact Or.inr (Or.inr (Or.inr ⟨tid, r, hl, by rw [hp], rfl⟩))
+
+/-- the served transaction is ready (so the two "unreachable" branches of `agentPoll` are) -/
+theorem chosen_mem_ready (s : State) (now : Time) (pick : Option Nat) (tid : Nat)
+    (h : chosen_peers s now pick = some tid) : tid ∈ ready s now := by
+  unfold chosen_peers at h
+  have hh : ∀ l : List Nat, l.head? = some tid → tid ∈ l := by
+    intro l hl
+    cases l with
+    | nil => simp at hl
+    | cons a l => simp at hl; simp [hl]
+  split at h
+  · split at h
+    · next t hc =>
+      have : t = tid := by simpa using h
+      subst this
+      simpa using hc
+    · exact hh _ h
+  · exact hh _ h
+
+/-! ### one `step`, seen from the validated set and the endpoints -/
+
+theorem agentPoll_validated (s : State) (now : Time) (pick : Option Nat) :
+    (agentPoll s now pick).1.validated = s.validated := by
+  rcases agentPoll_cases_peers s now pick with ⟨t, h⟩ | ⟨_, _, _, _, h⟩ | ⟨_, _, _, _, h⟩ | ⟨_, _, _, _, h⟩ <;>
+    rw [h]
+
+theorem agentPoll_transport (s : State) (now : Time) (pick : Option Nat) :
+    (agentPoll s now pick).1.transport = s.transport := by
+  rcases agentPoll_cases_peers s now pick with ⟨t, h⟩ | ⟨_, _, _, _, h⟩ | ⟨_, _, _, _, h⟩ | ⟨_, _, _, _, h⟩ <;>
+    rw [h]
+
+theorem agentPoll_localAddr (s : State) (now : Time) (pick : Option Nat) :
+    (agentPoll s now pick).1.localAddr = s.localAddr := by
+  rcases agentPoll_cases_peers s now pick with ⟨t, h⟩ | ⟨_, _, _, _, h⟩ | ⟨_, _, _, _, h⟩ | ⟨_, _, _, _, h⟩ <;>
+    rw [h]
+
+theorem agentPoll_remoteCreds (s : State) (now : Time) (pick : Option Nat) :
+    (agentPoll s now pick).1.remoteCreds = s.remoteCreds := by
+  rcases agentPoll_cases_peers s now pick with ⟨t, h⟩ | ⟨_, _, _, _, h⟩ | ⟨_, _, _, _, h⟩ | ⟨_, _, _, _, h⟩ <;>
+    rw [h]
+
+/-! ### the validated set along a history -/
+
+/-- the calls that validate their source address `a` (same text as `C15.validates`) -/
+def acceptedFrom (a : SockAddr) (p : Op × Out) : Bool :=
+  match p with
+  | (.handle _ src, .incoming) => src = a
+  | (.handle _ src, .response) => src = a
+  | _ => false
+
+theorem acceptedFrom_handle_ne (m : InMsg) (src a : SockAddr) (o : Out) (h : a ≠ src) :
+    acceptedFrom a (.handle m src, o) = false := by
+  have h' : ¬ src = a := fun e => h e.symm
+  cases o <;> simp [acceptedFrom, h']
+
+theorem step_acceptedFrom (s : State) (op : Op) (a : SockAddr) :
+    isValidatedPeer (step s op).1 a = (isValidatedPeer s a || acceptedFrom a (op, (step s op).2)) := by
+  unfold isValidatedPeer
+  cases op with
+  | sendReq tid b hc to now =>
+    rw [step_sendReq]
+    split <;> simp [acceptedFrom]
+  | sendOther b to => simp [step, acceptedFrom]
+  | handle m src =>
+    simp only [step]
+    split
+    · split
+      · simp [acceptedFrom]
+      · split
+        · split
+          · split
+            · simp [acceptedFrom, validatedPeer_mem]
+            · simp [acceptedFrom]
+          · simp [acceptedFrom]
+        · simp [acceptedFrom, validatedPeer_mem]
+    · simp [acceptedFrom, validatedPeer_mem]
+  | poll now pick =>
+    have : (step s (.poll now pick)) = agentPoll s now pick := rfl
+    rw [this, agentPoll_validated]
+    simp [acceptedFrom]
+  | cancel tid => simp [step, acceptedFrom]
+  | cancelRtx tid => simp [step, acceptedFrom]
+  | configure tid rto n last => simp [step, acceptedFrom]
+  | setRemoteCreds k => simp [step, acceptedFrom]
+
+theorem trace_nil_peers (s : State) : trace s [] = [] := rfl
+
+theorem trace_cons_peers (s : State) (op : Op) (ops : List Op) :
+    trace s (op :: ops) = (op, (step s op).2) :: trace (step s op).1 ops := rfl
+
+/-- validated after a history = validated before, or validated by one of its calls -/
+theorem isValidatedPeer_after (s : State) (ops : List Op) (a : SockAddr) :
+    isValidatedPeer (after s ops) a = (isValidatedPeer s a || (trace s ops).any (acceptedFrom a)) := by
+  induction ops generalizing s with
+  | nil => simp [after_nil, trace_nil_peers]
+  | cons op ops ih =>
+    rw [after_cons, ih, step_acceptedFrom, trace_cons_peers, List.any_cons, Bool.or_assoc]
+
+/-! ### one `step`, seen from one outstanding request -/
+
+theorem lookup_remove_some {out : List (Nat × Req)} {t u : Nat} {r' : Req}
+    (h : lookup (remove out t) u = some r') : u ≠ t ∧ lookup out u = some r' := by
+  by_cases e : u = t
+  · subst e; rw [lookup_remove_self] at h; cases h
+  · rw [lookup_remove_ne _ _ _ e] at h; exact ⟨e, h⟩
+
+theorem lookup_insert_some {out : List (Nat × Req)} {t u : Nat} {r r' : Req}
+    (h : lookup (insert out t r) u = some r') : (u = t ∧ r' = r) ∨ (u ≠ t ∧ lookup out u = some r') := by
+  by_cases e : u = t
+  · subst e; rw [lookup_insert_self] at h; cases h; exact Or.inl ⟨rfl, rfl⟩
+  · rw [lookup_insert_ne _ _ _ _ e] at h; exact Or.inr ⟨e, h⟩
+
+theorem lookup_update_some {out : List (Nat × Req)} {t u : Nat} {f : Req → Req} {r' : Req}
+    (h : lookup (update out t f) u = some r') :
+    ∃ r, lookup out u = some r ∧ ((u ≠ t ∧ r' = r) ∨ (u = t ∧ r' = f r)) := by
+  by_cases e : u = t
+  · subst e
+    rw [lookup_update_self] at h
+    cases hl : lookup out u with
+    | none => rw [hl] at h; cases h
+    | some r => rw [hl] at h; cases h; exact ⟨r, rfl, Or.inr ⟨rfl, rfl⟩⟩
+  · rw [lookup_update_ne _ _ _ _ e] at h; exact ⟨r', h, Or.inl ⟨e, rfl⟩⟩
+
+@[simp] theorem Req.new_bytes (tr : Transport) (b : Bytes) (hc : Bool) (to : SockAddr) :
+    (Req.new tr b hc to).bytes = b := by cases tr <;> rfl
+@[simp] theorem Req.new_to (tr : Transport) (b : Bytes) (hc : Bool) (to : SockAddr) :
+    (Req.new tr b hc to).to = to := by cases tr <;> rfl
+@[simp] theorem Req.new_hadCreds (tr : Transport) (b : Bytes) (hc : Bool) (to : SockAddr) :
+    (Req.new tr b hc to).hadCreds = hc := by cases tr <;> rfl
+
+/-- what one call may change of a request that stays outstanding: never its bytes, destination or
+    credentials flag; its last-send instant only to the `now` of a `poll` -/
+def Kept (op : Op) (r r' : Req) : Prop :=
+  r'.bytes = r.bytes ∧ r'.to = r.to ∧ r'.hadCreds = r.hadCreds ∧
+  (r'.lastSend = r.lastSend ∨ ∃ now pick, op = .poll now pick ∧ r'.lastSend = some now)
+
+theorem Kept.refl (op : Op) (r : Req) : Kept op r r := ⟨rfl, rfl, rfl, Or.inl rfl⟩
+
+theorem configureReq_kept (tr : Transport) (r : Req) (rto n last : Nat) :
+    (configureReq tr r rto n last).bytes = r.bytes ∧ (configureReq tr r rto n last).to = r.to ∧
+    (configureReq tr r rto n last).hadCreds = r.hadCreds ∧
+    (configureReq tr r rto n last).lastSend = r.lastSend := by
+  cases tr <;> exact ⟨rfl, rfl, rfl, rfl⟩
+
+/-- an outstanding request after a call either was outstanding before (and kept its identity), or
+    is the request that call just sent -/
+theorem step_lookup_some (s : State) (op : Op) (u : Nat) (r' : Req)
+    (h : lookup (step s op).1.out u = some r') :
+    (∃ r, lookup s.out u = some r ∧ Kept op r r') ∨
+    (lookup s.out u = none ∧ ∃ b hc to now, op = .sendReq u b hc to now ∧
+      (step s op).2 = .transmit (some u) ⟨b, s.transport, s.localAddr, to⟩ ∧
+      r' = { Req.new s.transport b hc to with lastSend := some now }) := by
+  cases op with
+  | sendReq tid b hc to now =>
+    rw [step_sendReq] at h ⊢
+    split at h
+    · exact Or.inl ⟨r', h, Kept.refl _ _⟩
+    · next hn =>
+      rw [if_neg hn]
+      rcases lookup_insert_some h with ⟨e, hr⟩ | ⟨e, hl⟩
+      · subst e
+        refine Or.inr ⟨?_, b, hc, to, now, rfl, rfl, hr⟩
+        cases hl : lookup s.out u with
+        | none => rfl
+        | some x => rw [hl] at hn; exact absurd rfl hn
+      · exact Or.inl ⟨r', hl, Kept.refl _ _⟩
+  | sendOther b to => exact Or.inl ⟨r', h, Kept.refl _ _⟩
+  | handle m src =>
+    left
+    simp only [step] at h
+    split at h
+    · split at h
+      · exact ⟨r', h, Kept.refl _ _⟩
+      · next r hr =>
+        have hrem : ∀ a, lookup (validatedPeer { s with out := remove s.out m.tid } a).out u = some r' →
+            ∃ r, lookup s.out u = some r ∧ Kept (.handle m src) r r' := by
+          intro a h
+          rw [validatedPeer_out_peers] at h
+          exact ⟨r', (lookup_remove_some h).2, Kept.refl _ _⟩
+        have hins : lookup (insert (remove s.out m.tid) m.tid r) u = some r' →
+            ∃ r, lookup s.out u = some r ∧ Kept (.handle m src) r r' := by
+          intro h
+          rcases lookup_insert_some h with ⟨e, hr'⟩ | ⟨e, hl⟩
+          · subst e; subst hr'; exact ⟨r', hr, Kept.refl _ _⟩
+          · exact ⟨r', (lookup_remove_some hl).2, Kept.refl _ _⟩
+        split at h
+        · split at h
+          · split at h
+            · exact hrem _ h
+            · exact hins h
+          · exact hins h
+        · exact hrem _ h
+    · rw [validatedPeer_out_peers] at h; exact ⟨r', h, Kept.refl _ _⟩
+  | poll now pick =>
+    left
+    have e : step s (.poll now pick) = agentPoll s now pick := rfl
+    rw [e] at h
+    rcases agentPoll_cases_peers s now pick with ⟨t, hp⟩ | ⟨tid, r, hl, _, hp⟩ | ⟨tid, r, hl, _, hp⟩ |
+      ⟨tid, r, hl, _, hp⟩
+    · rw [hp] at h; exact ⟨r', h, Kept.refl _ _⟩
+    · rw [hp] at h
+      dsimp only at h
+      obtain ⟨r0, hl0, hc⟩ := lookup_update_some h
+      rcases hc with ⟨_, e⟩ | ⟨e1, e2⟩
+      · subst e; exact ⟨_, hl0, Kept.refl _ _⟩
+      · subst e1
+        rw [hl] at hl0; cases hl0
+        refine ⟨r, hl, ?_⟩
+        subst e2
+        refine ⟨reqPoll_bytes _ _, reqPoll_to _ _, reqPoll_hadCreds_peers _ _, ?_⟩
+        rcases reqPoll_lastSend r now with h1 | h1
+        · exact Or.inl h1
+        · exact Or.inr ⟨now, pick, rfl, h1⟩
+    · rw [hp] at h; exact ⟨r', (lookup_remove_some h).2, Kept.refl _ _⟩
+    · rw [hp] at h; exact ⟨r', (lookup_remove_some h).2, Kept.refl _ _⟩
+  | cancel tid =>
+    left
+    simp only [step] at h
+    obtain ⟨r0, hl0, hc⟩ := lookup_update_some h
+    rcases hc with ⟨_, e⟩ | ⟨_, e⟩ <;> subst e
+    · exact ⟨_, hl0, Kept.refl _ _⟩
+    · exact ⟨r0, hl0, rfl, rfl, rfl, Or.inl rfl⟩
+  | cancelRtx tid =>
+    left
+    simp only [step] at h
+    obtain ⟨r0, hl0, hc⟩ := lookup_update_some h
+    rcases hc with ⟨_, e⟩ | ⟨_, e⟩ <;> subst e
+    · exact ⟨_, hl0, Kept.refl _ _⟩
+    · exact ⟨r0, hl0, rfl, rfl, rfl, Or.inl rfl⟩
+  | configure tid rto n last =>
+    left
+    simp only [step] at h
+    obtain ⟨r0, hl0, hc⟩ := lookup_update_some h
+    rcases hc with ⟨_, e⟩ | ⟨_, e⟩ <;> subst e
+    · exact ⟨_, hl0, Kept.refl _ _⟩
+    · obtain ⟨h1, h2, h3, h4⟩ := configureReq_kept s.transport r0 rto n last
+      exact ⟨r0, hl0, h1, h2, h3, Or.inl h4⟩
+  | setRemoteCreds k => exact Or.inl ⟨r', h, Kept.refl _ _⟩
 
 end StunVerif.Agent
